@@ -54,6 +54,8 @@ def alphabet(n):
     ops = []
     for s in subsets(n):
         ops.append(("set_mask", tuple((i, i in s) for i in range(n))))
+    for s in subsets(n):                                            # flags of the other accepted kind (numpy.bool_, e.g. from f > 200)
+        ops.append(("set_mask_np", tuple((i, i in s) for i in range(n))))
     ops.append(("set_mask", ()))                                    # empty dictionary: clears the mask
     ops.append(("set_mask", ((0, True),)))                          # partial
     ops.append(("set_mask", ((n - 1, False),)))                     # partial
@@ -99,7 +101,7 @@ def apply_model(M, op):
         return model_construct(*supplied(op, M))
     M = [list(p) for p in M]
     n = len(M)
-    if name == "set_mask":
+    if name in ("set_mask", "set_mask_np"):
         if len(op[1]) == 0:
             for p in M:
                 p[2] = False
@@ -158,8 +160,8 @@ def apply_real(d, op, M):
             return r, Violation(f"construct-{'asc' if f[-1] > f[0] else 'desc'}:caller-mask-mutated", "DataSet.__init__",
                             f"the mask dictionary passed to DataSet(frequencies={f}, ..., mask={dict(before)}) came back as {mask}")
         return r, None
-    if name == "set_mask":
-        arg = dict(op[1])
+    if name in ("set_mask", "set_mask_np"):
+        arg = dict(op[1]) if name == "set_mask" else {i: np.bool_(b) for i, b in op[1]}
         before = list(arg.items())
         d.set_mask(arg)
         if list(arg.items()) != before:
@@ -226,7 +228,8 @@ def check(d, M):
     f_all = [float(x) for x in d.get_frequencies(masked=None)]
     z_all = [complex(x) for x in d.get_impedances(masked=None)]
     m = d.get_mask()
-    if sorted(m.keys()) != list(range(n)) or not all(isinstance(v, (bool,)) or type(v).__name__ == "bool_" for v in m.values()):
+    import numpy as np
+    if sorted(m.keys()) != list(range(n)) or not all(isinstance(v, (bool, np.bool_)) for v in m.values()):
         return "mask-keys", f"get_mask() = {m} is not a total boolean map over 0..{n - 1}"
     if len(f_all) != n or len(z_all) != n:
         return "length", f"{len(f_all)} frequencies / {len(z_all)} impedances for {n} points"
@@ -301,6 +304,10 @@ def repro_src(seq, want, frame=False):
             lines.append(f"d = DataSet(np.array({lit(f)}), np.array({lit(z)}), mask=mask)")
             if frame:
                 lines.append("assert mask is None or list(mask.items()) == mask0, ('caller mask altered', mask0, mask)")
+        elif name == "set_mask_np":
+            lines.append(f"arg = {{i: np.bool_(b) for i, b in {dict(op[1])!r}.items()}}; arg0 = list(arg.items()); d.set_mask(arg)")
+            if frame:
+                lines.append("assert list(arg.items()) == arg0, ('argument altered', arg0, arg)")
         elif name == "set_mask":
             lines.append(f"arg = {dict(op[1])!r}; arg0 = list(arg.items()); d.set_mask(arg)")
             if frame:
@@ -344,7 +351,7 @@ def describe(seq):
 
 
 def fn_of(op):
-    return {"construct": "DataSet.__init__", "reconstruct": "DataSet.__init__", "set_mask": "DataSet.set_mask", "low_pass": "DataSet.low_pass",
+    return {"construct": "DataSet.__init__", "reconstruct": "DataSet.__init__", "set_mask": "DataSet.set_mask", "set_mask_np": "DataSet.set_mask", "low_pass": "DataSet.low_pass",
             "high_pass": "DataSet.high_pass", "subtract": "DataSet.subtract_impedances", "dict": "DataSet._parse", "duplicate": "DataSet.duplicate",
             "average": "DataSet.average", "getters": "DataSet.get_mask"}[op[0]]
 
